@@ -12,7 +12,19 @@ from core.wire import atom, line, parse_reply, Atom
 
 ID = "C42"
 LEAN_TARGETS = ["TornadoModel.C42.Props"]
-THEOREMS = []
+THEOREMS = [
+    "TornadoModel.C42.status_decoding",
+    "TornadoModel.C42.status_decoding_signal",
+    "TornadoModel.C42.status_decoding_exit",
+    "TornadoModel.C42.view_step",
+    "TornadoModel.C42.good_step",
+    "TornadoModel.C42.good_after",
+    "TornadoModel.C42.settle",
+    "TornadoModel.C42.callback_exactly_once",
+    "TornadoModel.C42.wait_for_exit_outcome",
+    "TornadoModel.C42.futOf_eq_spec",
+    "TornadoModel.C42.callback_at_most_once",
+]
 TRUSTED = [
     "os.waitpid(pid, WNOHANG) contract (0 for running, (pid,status) once for a zombie, ChildProcessError afterwards) as simulated by the harness; Linux wait-status macros",
     "asyncio add_signal_handler / call_soon ordering; the SIGCHLD handler is run by the harness through the handle asyncio stored",
